@@ -39,6 +39,20 @@ def cases(tier, seed):
         c["name"] = "%04d-av%d-p%d-b%d-%s-%s" % (k, avw, pw, c["max_burst"], c["cls"], c["gaps"])
         c["cost"] = c["nacc"] * 4
         out.append(c)
+    # the bridge on a port of the real crossbar + controller + reference DRAM
+    core_widths = [(32, 32), (64, 32), (32, 64), (64, 64), (16, 32), (128, 32)]
+    for k in range(12 if tier == "quick" else 90):
+        r = random.Random("C11/%d/%s/core/%d" % (seed, tier, k))
+        avw, pw = core_widths[k % len(core_widths)]
+        c = dict(core=True, avw=avw, pw=pw, base=r.choice([0, 0x1000, 0x100000]), max_burst=r.choice([2, 4, 8, 16]),
+                 cls=CLASSES[(k // 2) % len(CLASSES)], gaps=["none", "none", "none", "gaps"][k % 4], nacc=r.randint(25, 45),
+                 cmd_ready_prob=1.0, extra_lat=(0, 0), long_stall=0, idle=r.choice([0, 0, 3]), aligned=bool(r.random() < 0.6),
+                 cmd_buffer_depth=r.choice([4, 8, 16]), refresh=(k % 6 != 5), seed="C11/%d/core/%d" % (seed, k))
+        if pw > avw and c["max_burst"] < pw // avw:
+            c["max_burst"] = pw // avw
+        c["name"] = "core%03d-av%d-p%d-b%d-%s-%s" % (k, avw, pw, c["max_burst"], c["cls"], c["gaps"])
+        c["cost"] = c["nacc"] * 24
+        out.append(c)
     return out
 
 
@@ -61,10 +75,21 @@ def run_case(c):
             self.port = LiteDRAMNativePort("both", aw_port, pw)
             self.submodules.bridge = LiteDRAMAvalonMM2Native(self.av, self.port, max_burst_length=c["max_burst"], base_address=c["base"])
 
-    dut = DUT()
+    if c.get("core"):
+        from ..corebackend import CoreBackend
+        stub = CoreBackend(1, databits=pw, refresh=c["refresh"], cmd_buffer_depth=c["cmd_buffer_depth"])
+        dut = stub.dut
+        dut.av = AvalonMMInterface(data_width=avw, adr_width=30)
+        dut.submodules.bridge = LiteDRAMAvalonMM2Native(dut.av, stub.ports[0], max_burst_length=c["max_burst"], base_address=c["base"])
+        store = stub.store
+        mem_procs = stub.processes()
+        aw_port = stub.ports[0].address_width
+    else:
+        dut = DUT()
+        store = Store(pb)
+        stub = CoreStub([dut.port], store, r, cmd_ready_prob=c["cmd_ready_prob"], extra_lat=tuple(c["extra_lat"]), long_stall=c["long_stall"])
+        mem_procs = [stub.process()]
     av = dut.av
-    store = Store(pb)
-    stub = CoreStub([dut.port], store, r, cmd_ready_prob=c["cmd_ready_prob"], extra_lat=tuple(c["extra_lat"]), long_stall=c["long_stall"])
     off = c["base"] // avb
     span = 1 << (aw_port + (pb.bit_length() - 1) - (avb.bit_length() - 1) - 1)
     hot = [r.randrange(span - 64) for _ in range(4)]
@@ -172,7 +197,7 @@ def run_case(c):
             now = (stub.seq, len(stub.wbeats[0]), len(stub.rbeats[0]), stub.outstanding())
             quiet = quiet + 1 if now == last else 0
             last = now
-            if quiet > 900 and stub.outstanding() == 0:
+            if quiet > (200 if c.get("core") else 900) and stub.outstanding() == 0:
                 break
             yield
         state["done"] = True
@@ -199,10 +224,10 @@ def run_case(c):
                         state["expect"].pop(0)
             yield
 
-    cycles, reason = run_sim(dut, [stub.process(), main(), monitor()], lambda: state["done"], 3000000, wall_limit=900)
+    cycles, reason = run_sim(dut, mem_procs + [main(), monitor()], lambda: state["done"], 3000000, wall_limit=900)
     if reason == "wall":
         return dict(verdict="inconclusive", why="wall-clock watchdog", violations=[], stats={}, nontrivial=False, signature="")
-    v = res["v"] + list(stub.events)
+    v = res["v"] + list(stub.events) + (stub.dfi_events() if c.get("core") else [])
     bad = []
     hung = any("within-bound" in x.get("kind", "") for x in v)
     if not hung:
@@ -222,7 +247,7 @@ def run_case(c):
         x["mid_burst_gaps_in_run"] = res["gaps_used"]
         x["gap_behaviour"] = c["gaps"]
     nontrivial = res["done"] >= 25 and res["stalled"] > 0 and (c["cls"] == "singles" or res["wbursts"] + res["rbursts"] >= 1)
-    sig = "|".join(str(x) for x in (avw, pw, c["max_burst"], c["cls"], c["gaps"]))
+    sig = "|".join(str(x) for x in (avw, pw, c["max_burst"], c["cls"], c["gaps"], bool(c.get("core"))))
     return dict(verdict="violated" if v else "held", violations=v[:8], stats=st, nontrivial=bool(nontrivial) or bool(v), signature=sig)
 
 
